@@ -201,7 +201,14 @@ class Constant(Expression):
 
     def __init__(self, value: float | int | ArrayLike) -> None:
         self._hash = None
-        self.value = np.asarray(value) if not isinstance(value, (int, float)) else value
+        # NumPy scalars and arrays are stored as float64: integer and low-precision dtypes would
+        # change the arithmetic of the expression (uint8 wrap-around, int ** negative int raising,
+        # float32 rounding) instead of denoting the number the user wrote
+        self.value = (
+            np.asarray(value, dtype=np.float64)
+            if not isinstance(value, (int, float))
+            else value
+        )
 
     def evaluate(
         self, values: Mapping[str, ArrayLike | float]
